@@ -359,7 +359,8 @@ func (c *VCtx) sliceFacts(n int, seeds []string) []*factRec {
 
 // name introduces a named constant for a large term.
 func (c *VCtx) name(prefix string, t *Term) *Term {
-	if len(t.S) < 60 {
+	if len(t.S) < 60 && !(strings.HasPrefix(t.S, "(ite ") && strings.HasPrefix(string(t.Sort), "(Array")) {
+		// (merged heaps are always named: an ite inside a quantifier pattern makes z3 drop the pattern)
 		return t
 	}
 	n := c.fresh(prefix, t.Sort)
@@ -779,6 +780,9 @@ func (c *VCtx) newFrame(fn *ssa.Function, parent *Frame) *Frame {
 		for i, in := range b.Instrs {
 			if d, ok := in.(*ssa.DebugRef); ok {
 				if obj := d.Object(); obj != nil {
+					if v, isVar := obj.(*types.Var); isVar && v.IsField() {
+						continue // a field selector x.f is not a binding of a variable named f
+					}
 					fr.dbg[obj.Name()] = append(fr.dbg[obj.Name()], dbgBind{d.X, b, i, d.IsAddr})
 				}
 			}
@@ -832,7 +836,19 @@ func (c *VCtx) mergeVals(guards []*Term, vals []Val) Val {
 			res = Ite(guards[i], c.asTerm(vals[i]), res)
 		}
 		res.GT = v0.GT
-		return c.name("m", res)
+		n := c.name("m", res)
+		if strings.HasPrefix(string(res.Sort), "(Array ") && n != res {
+			ks, vs := arrParts(res.Sort)
+			// pointwise reading of a merged heap: lets quantified facts about the branches' heaps be instantiated
+			// for terms that mention only the merged one
+			pt := fmt.Sprintf("(select %s k)", c.asTerm(vals[len(vals)-1]).S)
+			for i := len(vals) - 2; i >= 0; i-- {
+				pt = fmt.Sprintf("(ite %s (select %s k) %s)", guards[i].S, c.asTerm(vals[i]).S, pt)
+			}
+			_ = vs
+			c.defFact(n, T(SBool, fmt.Sprintf("(forall ((k %s)) (! (= (select %s k) %s) :pattern ((select %s k))))", ks, n.S, pt, n.S)))
+		}
+		return n
 	case Tuple:
 		out := make(Tuple, len(v0))
 		for k := range v0 {
@@ -975,14 +991,18 @@ func (c *VCtx) mergeStates(ins []*State) (*State, []*Term) {
 	st.pc = c.name("pc", Or(guards...))
 	// epoch: all must agree, else take max and treat others' lazily-created heaps as base of that epoch
 	st.epoch = ins[0].epoch
+	names := map[string]bool{}
 	for _, s := range ins {
 		if s.epoch != st.epoch {
-			// conservative: havoc everything
+			// branches with different bases (one of them went through a call with unknown effects): a fresh base
+			// for heaps nobody has mentioned yet, and every known heap merged from the branches' own versions
 			c.havocAll(st)
+			for k := range c.heapSorts {
+				names[k] = true
+			}
 			break
 		}
 	}
-	names := map[string]bool{}
 	for _, s := range ins {
 		for k := range s.heaps {
 			names[k] = true
